@@ -319,6 +319,26 @@ theorem trimCell_triangles (tt : TrimTol K) (sq : K → K) (trims : List (Trim K
     have : 1 ≤ (cellPoly tt sq trims v1 v2 v3 v4 vidx).verts.length := List.length_pos_of_mem f1
     omega
 
+/-- (iii), triangles, fan form: a returned triangle with id `tid` is `(verts[0], verts[k+1], verts[k+2])` for
+    `k = tid - tidx` – the apex and two CONSECUTIVE entries of the returned vertex list -/
+theorem trimCell_triangles_fan (tt : TrimTol K) (sq : K → K) (trims : List (Trim K)) (v1 v2 v3 v4 : TVertex K)
+    (vidx tidx : ℕ) (tid : ℕ) (t : List ℕ) (h : (tid, t) ∈ (trimCell tt sq trims v1 v2 v3 v4 vidx tidx).tris) :
+    ∃ k p q r, tid = tidx + k ∧
+      (trimCell tt sq trims v1 v2 v3 v4 vidx tidx).verts[0]? = some p ∧
+      (trimCell tt sq trims v1 v2 v3 v4 vidx tidx).verts[k + 1]? = some q ∧
+      (trimCell tt sq trims v1 v2 v3 v4 vidx tidx).verts[k + 2]? = some r ∧ t = [p.1, q.1, r.1] := by
+  by_cases hall : allInside tt trims v1 v2 v3 v4 = true
+  · rw [(trimCell_of_allInside tt sq trims v1 v2 v3 v4 vidx tidx hall).2] at h; cases h
+  · obtain ⟨e1, e2⟩ := trimCell_of_not_allInside tt sq trims v1 v2 v3 v4 vidx tidx (by simpa using hall)
+    rw [e2] at h
+    rw [e1]
+    obtain ⟨c, hc, hce⟩ := List.mem_map.mp h
+    obtain ⟨hcm, _⟩ := List.mem_filter.mp hc
+    obtain ⟨k, n1, n2, n3, n4⟩ := mem_numberFrom_fanTriangles tidx _ c hcm
+    have e : tid = c.1 ∧ t = [c.2.1.1, c.2.2.1.1, c.2.2.2.1] := by
+      have := hce; simp only [Prod.mk.injEq] at this; exact ⟨this.1.symm, this.2.symm⟩
+    exact ⟨k, c.2.1, c.2.2.1, c.2.2.2, e.1.trans n1, n2, n3, n4, e.2⟩
+
 /-- counts: at most `len(tris_vertices) - 2` triangles -/
 theorem trimCell_tris_length (tt : TrimTol K) (sq : K → K) (trims : List (Trim K)) (v1 v2 v3 v4 : TVertex K)
     (vidx tidx : ℕ) :
